@@ -1,8 +1,9 @@
 """Case generator of the C09 end-to-end engine "chan09" on the channel simulator
 (harness/sim.c; case format in harness/SIM.md): histories of ares_send_dnsrec requests on
 1..8 servers with scripted answers / SERVFAIL / REFUSED / NOTIMP / silence (timeouts), clock
-advances around the retry delay, and ares_set_servers_ports_csv edits (add / remove / reorder /
-mix / replace / empty) between queries and while attempts are in flight.  serverstatecb=1 and
+advances around the retry delay, and server-list edits (add / remove / reorder / mix / replace / empty) between queries and
+while attempts are in flight: ares_set_servers_ports_csv, or - a fifth of the histories - a
+rewritten resolv.conf followed by ares_reinit (sim op writefile).  serverstatecb=1 and
 qdump=1 so that the oracle sees the server-state callbacks and the library's own failure
 counters; idseq=1 so that probe copies can be told from user queries.
 """
@@ -51,10 +52,34 @@ def edit(rng, ids):
     return "setservers " + (",".join(addr(x) for x in new) if new else "-"), uniq
 
 
+def resolvconf_hex(ids):
+    return "".join("nameserver %s\n" % addr(i) for i in ids).encode().hex()
+
+
+def do_edit(rng, ids, via_reinit):
+    """ops of one list edit; updates ids in place"""
+    e, new = edit(rng, ids)
+    if via_reinit:
+        if not new:                      # a resolv.conf without nameserver leaves the list alone
+            return ["reinit", "servers"]
+        ids[:] = new
+        return ["writefile @/rc.conf " + resolvconf_hex(new), "reinit", "servers"]
+    ids[:] = new
+    return [e, "servers"]
+
+
 def gen_case(rng, tier):
     n = rng.choice([1, 2, 2, 3, 3, 3, 4, 5, 6, 8])
     ids = list(range(1, n + 1))
-    cfg = ["seed=%d" % rng.randrange(1, 10 ** 6), "servers=%d" % n, "flags=noedns", "rotate=%d" % rng.choice([0, 0, 1, 1]),
+    # a fifth of the histories take their servers from a resolv.conf and edit the list by
+    # rewriting the file and calling ares_reinit
+    via_reinit = rng.random() < 0.2
+    if via_reinit:
+        rng.shuffle(ids)
+        srv = ["servers=0", "resolvconf=@/rc.conf", "writefile=@/rc.conf:" + resolvconf_hex(ids)]
+    else:
+        srv = ["servers=%d" % n]
+    cfg = ["seed=%d" % rng.randrange(1, 10 ** 6)] + srv + ["flags=noedns", "rotate=%d" % rng.choice([0, 0, 1, 1]),
            "timeout=2000", "maxtimeout=5000", "qcachettl=0", "idseq=1", "serverstatecb=1", "qdump=1"]
     tries = rng.choice([None, 1, 1, 2, 3])
     if tries is not None:
@@ -86,12 +111,10 @@ def gen_case(rng, tier):
                 ops.append("adv %d" % rng.choice([0, 1, 99, 100, 101, 4999, 5000, 5001, max(0, delay - 1), delay, delay + 1, 60000, 200000]))
                 ops.append("proct")
             else:
-                e, ids = edit(rng, ids)
-                ops += [e, "servers"]
+                ops += do_edit(rng, ids, via_reinit)
         else:
             if r < p_edit_inflight:
-                e, ids = edit(rng, ids)
-                ops += [e, "servers"]
+                ops += do_edit(rng, ids, via_reinit)
             elif r < p_edit_inflight + p_fail * (1 - p_edit_inflight):
                 k = rng.choice(["s", "r", "i", "x", "x", "s"])
                 if k == "x":
